@@ -13,6 +13,10 @@
 //!        with the model like the other pipelines; a request observed complete must find everything sent
 //!        before it already emitted
 //!
+//! Merge-on-drop guards (`keyed`, `mutex`, `worker`): created by `g` (CloseAndMergeOnDrop) or `h` (MergeOnDrop),
+//! they go out of scope by `d<g>` (drop), `u<g>` (an unwinding panic caught on the thread) or `j<g>` (an
+//! unwinding panic on a spawned thread that is joined); for the oracle and the model a drop is a drop.
+//!
 //! Implementation-vs-property oracle (independent of Lean; written from the property statement):
 //! the inputs are grouped per flush epoch and per key with `BTreeMap`s; every epoch must have emitted
 //! exactly one aggregate per distinct key whose sum fields are the sums, whose keep-last field is the
@@ -2050,6 +2054,58 @@ fn trace_request(keyless: bool, ins: &[In], aggs: &[Agg]) -> String {
 
 // ------------------------------------------------------------------------------------------------
 
+/// Fault probe (recorded in the report's notes, never an oracle failure): what happens to the inputs of
+/// OTHER callers when one `Merge::merge` panics (here: `Sum<u64>` overflowing in a build with overflow
+/// checks). The property quantifies over input sequences, not over panics inside a merge, so this is
+/// reported, not judged; see notes/C10.md "DEFECT candidate".
+fn probe_panicking_merge() -> Vec<String> {
+    let mut out = vec![];
+    let plain = |bytes: u64| In { endpoint: String::new(), shard: 0, bytes, last: 0, obs: vec![], opt: None, inner: 0 };
+    // MutexSink: A merges 5; B's merge panics inside the lock on another thread (contained by join); C merges 7; close
+    let parent = ParentM { calls: MutexSink::new(Aggregate::default()) };
+    RootSink::merge(&parent.calls, plain(5).plain().close());
+    let h = parent.calls.clone();
+    let big = plain(u64::MAX);
+    let b = std::thread::spawn(move || RootSink::merge(&h, big.plain().close())).join().is_err();
+    if !b {
+        out.push("fault probe: an overflowing Sum<u64> merge did not panic in this build (wrapping arithmetic): probe skipped".into());
+        return out;
+    }
+    let h = parent.calls.clone();
+    let c = catch(|| RootSink::merge(&h, plain(7).plain().close())).is_err();
+    let closed = catch(|| agg_of(&test_metric(parent)));
+    out.push(format!(
+        "fault probe MutexSink: after one caller's merge panicked inside the lock (poisoned mutex), another caller's later merge panics: {c}; closing the sink: {}",
+        match closed {
+            Ok(a) => format!("emits bytes={:?}", a.bytes),
+            Err(p) => format!("panics ({p}): the aggregate holding the earlier callers' inputs is never emitted"),
+        }
+    ));
+    // WorkerSink: entry a:5, then an entry whose merge panics in the worker thread, then b:7, flush, drop
+    let ts = test_entry_sink();
+    let (dtx, drx) = mpsc::channel();
+    let agg = KeyedAggregator::<Call, BoxEntrySink>::new(ts.sink.clone());
+    let w: WorkerSink<CallEntry, Probe<KeyedAggregator<Call, BoxEntrySink>>> =
+        WorkerSink::new(Probe { inner: agg, dropped: dtx }, Duration::from_secs(3600));
+    let key = |e: &str, bytes: u64| In { endpoint: e.into(), shard: 0, bytes, last: 0, obs: vec![], opt: None, inner: 0 };
+    w.send(key("a", 5).call().close());
+    w.send(key("a", u64::MAX).call().close());
+    let died = drx.recv_timeout(Duration::from_secs(5)).is_ok();
+    let sent = catch(|| w.send(key("b", 7).call().close())).is_ok();
+    let rt = rt();
+    let flushed = match catch(|| rt.block_on(async { tokio::time::timeout(Duration::from_secs(5), w.flush()).await })) {
+        Ok(Ok(())) => "completes",
+        Ok(Err(_)) => "times out",
+        Err(_) => "panics",
+    };
+    drop(w);
+    out.push(format!(
+        "fault probe WorkerSink: a merge that panics in the worker thread ends the thread (inner sink dropped unflushed: {died}); a later send by another caller returns normally: {sent} (the entry is silently discarded); flush then {flushed}; aggregates emitted in total: {} (the entry a:5 merged before the panic is lost too)",
+        ts.inspector.entries().len()
+    ));
+    out
+}
+
 fn shrink_case(c: &Case, fails: impl Fn(&Case) -> bool) -> Case {
     let toks = shrink_list(&c.toks, |t| fails(&c.with(t)));
     c.with(&toks)
@@ -2071,6 +2127,7 @@ fn main() {
     if let Some(line) = args.replay_case() {
         cases.extend(Case::decode(&line));
     } else {
+        rep.notes.extend(probe_panicking_merge());
         for l in args.corpus_cases() {
             match Case::decode(&l) {
                 Some(c) => cases.push(c),
